@@ -247,6 +247,9 @@ def run(p, report, tier):
                 "known are judged", floor=3)
     report.rule("R8.3", "positions selected over a pool that was shrunk by np.delete reach the returned indices only "
                 "through a translating subscript T[positions] (SUB -> CAND), never directly", floor=2)
+    report.rule("R8.5", "in a loop that scores one candidate per iteration the collection of all candidates is not "
+                "read (only handed to project callees that do not read it): a candidate's score does not depend on "
+                "which other candidates are offered", floor=1)
     report.rule("R8.2", "after _transform_candidates the raw `candidates` parameter is read only to choose between "
                 "equivalent index sets (None / ndim tests, length), never as an operand of a numerical computation", floor=25)
     funcs = c01.pool_functions(p)
@@ -327,9 +330,118 @@ def run(p, report, tier):
                    detail="only representation tests" if not bad else
                    "raw candidates read at line(s) " + ", ".join(str(b.lineno) for b in bad))
     n83 = check_shrinking_pool(p, report, funcs, "R8.3")
+    # ---------------- R8.5 per-candidate scores do not read the candidate set
+    n85 = 0
+    for f in funcs:
+        ff = c01.FnFacts(f)
+        roles = candidate_set_roles(p, f, ff)
+        if not roles:
+            continue
+        for L in ast.walk(f.node):
+            if not isinstance(L, ast.For):
+                continue
+            it = L.iter
+            if not (isinstance(it, ast.Call) and isinstance(it.func, ast.Name) and it.func.id == "enumerate" and it.args
+                    and isinstance(it.args[0], ast.Name) and isinstance(L.target, ast.Tuple)
+                    and isinstance(L.target.elts[0], ast.Name)):
+                continue
+            S, cnt = it.args[0].id, L.target.elts[0].id
+            if S not in roles:
+                continue
+            stores = [n for n in ast.walk(L) if isinstance(n, ast.Assign)
+                      and any(isinstance(t, ast.Subscript) and cnt in index_names(t) for t in n.targets)]
+            if not stores:
+                continue
+            n85 += 1
+            bad = []
+            pm = {}
+            for n in ast.walk(L):
+                for ch in ast.iter_child_nodes(n):
+                    pm[ch] = n
+            for n in ast.walk(L):
+                if isinstance(n, ast.Name) and n.id == S and isinstance(n.ctx, ast.Load) and n is not it.args[0]:
+                    par = pm.get(n)
+                    ok = False
+                    if isinstance(par, (ast.Call, ast.keyword)):
+                        call = par if isinstance(par, ast.Call) else pm.get(par)
+                        ok = isinstance(call, ast.Call) and callee_param_unread(p, f, call, n)
+                    if isinstance(par, ast.Call) and c01.callname(par) == "len":
+                        ok = True
+                    if not ok:
+                        bad.append(n)
+            report.add("R8.5", f.qual, f"per-candidate loop `{norm_stmt(L, 50)}` does not read the candidate set",
+                       f"{f.file}:{L.lineno}", not bad,
+                       detail="each score depends on its own candidate only" if not bad else
+                       "the set of candidates is read at line(s) " + ", ".join(str(b.lineno) for b in bad) +
+                       " while scoring a single candidate: restricting the candidates changes the scores of the remaining ones")
+    report.analysed["per_candidate_loops"] = n85
     report.analysed["shrinking_pool_selections"] = n83
     report.assumptions += ["restriction invariance and permutation equivariance of the numbers are not decided",
                            "index spaces are inferred only from the idioms listed in the checker; unknown never fires"]
+
+
+def candidate_set_roles(p, f, ff):
+    """Names holding the whole candidate collection: results of
+    _transform_candidates, the `candidates` parameter, and results of project
+    calls whose returned element derives from the callee's `candidates`."""
+    roles = set()
+    if "candidates" in f.all_param_names():
+        roles.add("candidates")
+    for n in ast.walk(f.node):
+        if isinstance(n, ast.Assign) and isinstance(n.value, ast.Call):
+            cn = c01.callname(n.value)
+            t = n.targets[0]
+            if cn == "_transform_candidates" and isinstance(t, ast.Tuple):
+                roles |= {e.id for e in t.elts if isinstance(e, ast.Name)}
+            elif isinstance(t, ast.Tuple):
+                g = None
+                fn = n.value.func
+                if isinstance(fn, ast.Attribute) and isinstance(fn.value, ast.Name) and fn.value.id == "self" and f.cls is not None:
+                    g = p.find_method(f.cls, fn.attr)
+                if g is not None and "candidates" in g.all_param_names():
+                    glocs = c01.local_names(g.node) | set(g.all_param_names())
+                    gv, _ = c01.value_edges(g.node, glocs)
+                    for rn in ast.walk(g.node):
+                        if isinstance(rn, ast.Return) and isinstance(rn.value, ast.Tuple) and len(rn.value.elts) == len(t.elts):
+                            for e_t, e_r in zip(t.elts, rn.value.elts):
+                                if isinstance(e_t, ast.Name) and isinstance(e_r, ast.Name) and \
+                                        "candidates" in closure({e_r.id}, gv):
+                                    roles.add(e_t.id)
+    return forward_closure(roles, ff.vedges) | roles if roles else roles
+
+
+def callee_param_unread(p, f, call, argnode):
+    """The project callee does not read the parameter that receives argnode
+    (it is unused or only handed on to callees that do not read it)."""
+    g = None
+    fn = call.func
+    if isinstance(fn, ast.Attribute) and isinstance(fn.value, ast.Name) and fn.value.id == "self" and f.cls is not None:
+        cands = [c for c in p.classes.values() if p.is_subclass(c, f.cls.name) and p.find_method(c, fn.attr) is not None]
+        gs = {id(p.find_method(c, fn.attr).node): p.find_method(c, fn.attr) for c in cands}
+        return bool(gs) and all(_param_unread(p, g_, call, argnode, True) for g_ in gs.values())
+    r = p.resolve_expr(f.module, fn) if isinstance(fn, (ast.Name, ast.Attribute)) else None
+    if r is not None and r[0] == "func":
+        return _param_unread(p, r[1], call, argnode, r[1].cls is not None)
+    return False
+
+
+def _param_unread(p, g, call, argnode, is_method, depth=0):
+    params = g.params()
+    if is_method and params:
+        params = params[1:]
+    pname = None
+    for i, a in enumerate(call.args):
+        if a is argnode and i < len(params):
+            pname = params[i]
+    for k in call.keywords:
+        if k.value is argnode:
+            pname = k.arg
+    if pname is None:
+        return False
+    for n in ast.walk(g.node):
+        if isinstance(n, ast.Name) and n.id == pname and isinstance(n.ctx, ast.Load):
+            return False
+    return True
 
 
 def check_shrinking_pool(p, report, funcs, rule_id):
